@@ -49,7 +49,7 @@ var c01recipes = []string{"none", "none", "R1b-reader-parked-after-reset", "R4b-
 
 func TestC01(t *testing.T) {
 	e := vlib.GetEnv()
-	n := e.Pick(72, 1600)
+	n := e.Pick(72, 12000)
 	vlib.RunCases(t, "C01", "events", n, func(c *vlib.Case) vlib.Result {
 		var res vlib.Result
 		recipe := c01recipes[c.Index%len(c01recipes)]
@@ -725,7 +725,7 @@ func c01group(res *vlib.Result, rec *krecord, kh khook, b *kbind, lastGroup *kex
 
 func TestC01Replay(t *testing.T) {
 	e := vlib.GetEnv()
-	n := e.Pick(240, 6000)
+	n := e.Pick(240, 40000)
 	vlib.RunCases(t, "C01", "replay-order", n, func(c *vlib.Case) vlib.Result {
 		var res vlib.Result
 		rng := c.Rng
